@@ -5,6 +5,7 @@ pub mod c02;
 pub mod c05;
 pub mod c06;
 pub mod c07;
+pub mod c08;
 pub mod c09;
 pub mod c10;
 pub mod c12;
@@ -17,7 +18,7 @@ pub mod c18;
 pub mod c19;
 pub mod c20;
 
-pub const ALL: &[&str] = &["C01", "C02", "C05", "C06", "C07", "C09", "C10", "C12", "C13", "C14", "C15", "C16", "C17", "C18", "C19", "C20"];
+pub const ALL: &[&str] = &["C01", "C02", "C05", "C06", "C07", "C08", "C09", "C10", "C12", "C13", "C14", "C15", "C16", "C17", "C18", "C19", "C20"];
 
 pub fn run(ctx: &Ctx) -> bool {
     match ctx.prop.as_str() {
@@ -26,6 +27,7 @@ pub fn run(ctx: &Ctx) -> bool {
         "C05" => c05::run(ctx),
         "C06" => c06::run(ctx),
         "C07" => c07::run(ctx),
+        "C08" => c08::run(ctx),
         "C09" => c09::run(ctx),
         "C10" => c10::run(ctx),
         "C12" => c12::run(ctx),
@@ -49,6 +51,7 @@ pub fn checks(id: &str) -> Vec<Box<dyn DynCheck>> {
         "C05" => c05::checks(),
         "C06" => c06::checks(),
         "C07" => c07::checks(),
+        "C08" => c08::checks(),
         "C09" => c09::checks(),
         "C10" => c10::checks(),
         "C12" => c12::checks(),
